@@ -2,11 +2,11 @@
 # Confirms each seeded change in a scratch worktree of /repo's HEAD: the patch applies, the pinned
 # tests still pass, the demonstration fails with the change and passes without it.  Development tooling.
 . /verif/env.sh
-W=/tmp/wt-verify
+W=${VERIF_WT:-/tmp/wt-verify}
 git -C /repo worktree remove --force $W 2>/dev/null; git -C /repo worktree add -q $W HEAD || exit 2
 pat="${1:-}"
 while IFS='	' read -r id demo dest pkg run; do
-  case "$id" in *"$pat"*) ;; *) continue;; esac
+  case "$id" in *"$pat") ;; *) continue;; esac   # suffix match: C05-1 does not select C05-12
   d=/verif/seeded/$id
   cd $W && git reset -q --hard && git clean -fdq
   # patch.diff is what the seeding agent delivered; patch.rebased.diff is the same change on today's HEAD (after later fix: commits)
